@@ -58,29 +58,51 @@ impl FsImage {
             }
         }
         img.digest = d.0;
-        // entries that stand out: by name, or by what the files below them say
+        // entries that stand out: by name, or by what the files below them say. "What they say"
+        // is measured, not assumed: a word of a child's files counts when fewer than a quarter of
+        // the directory's children have it and it is not taken from the child's own name.
         let mut special = BTreeMap::new();
-        for (dir, children) in &img.dirs {
-            // the byte strings that occur in a minority of this directory's children's files
-            let mut v: Vec<u32> = vec![];
-            for (i, (name, is_dir)) in children.iter().enumerate() {
-                let rootish = matches!(name.as_str(), "und" | "root" | "und-ZZ");
-                let scripted = name.split(|c| c == '-' || c == '_').skip(1).any(|p| p.len() == 4 && p.bytes().all(|b| b.is_ascii_alphabetic()));
-                let mut odd_content = false;
-                if *is_dir {
-                    let prefix = format!("{}/{}/", dir, name);
-                    for (k, content) in img.files.range(prefix.clone()..) {
-                        if !k.starts_with(&prefix) {
-                            break;
-                        }
-                        let c = content.as_slice();
-                        let has = |needle: &[u8]| c.windows(needle.len()).any(|w| w == needle);
-                        if has(b"right-to-left") || has(b"top-to-bottom") {
-                            odd_content = true;
-                        }
+        let words_of = |dir: &str, name: &str| -> std::collections::BTreeSet<String> {
+            let mut own: Vec<String> = name.split(|c| c == '-' || c == '_').map(|p| p.to_ascii_lowercase()).collect();
+            own.push(name.to_ascii_lowercase());
+            let prefix = format!("{}/{}/", dir, name);
+            let mut set = std::collections::BTreeSet::new();
+            for (k, content) in img.files.range(prefix.clone()..) {
+                if !k.starts_with(&prefix) {
+                    break;
+                }
+                for w in content.split(|b| !(b.is_ascii_alphanumeric() || *b == b'-')) {
+                    if w.is_empty() || w.len() > 40 {
+                        continue;
+                    }
+                    let w = String::from_utf8_lossy(w).to_string();
+                    if !own.contains(&w.to_ascii_lowercase()) {
+                        set.insert(w);
                     }
                 }
-                if rootish || scripted || odd_content {
+            }
+            set
+        };
+        for (dir, children) in &img.dirs {
+            if children.len() < 8 {
+                continue;
+            }
+            let words: Vec<std::collections::BTreeSet<String>> = children
+                .iter()
+                .map(|(name, is_dir)| if *is_dir { words_of(dir, name) } else { Default::default() })
+                .collect();
+            let mut count: BTreeMap<&str, usize> = BTreeMap::new();
+            for set in &words {
+                for w in set {
+                    *count.entry(w.as_str()).or_default() += 1;
+                }
+            }
+            let mut v: Vec<u32> = vec![];
+            for (i, (name, _)) in children.iter().enumerate() {
+                let rootish = matches!(name.as_str(), "und" | "root" | "und-ZZ");
+                let scripted = name.split(|c| c == '-' || c == '_').skip(1).any(|p| p.len() == 4 && p.bytes().all(|b| b.is_ascii_alphabetic()));
+                let rare_word = words[i].iter().any(|w| count[w.as_str()] * 4 < children.len());
+                if rootish || scripted || rare_word {
                     v.push(i as u32);
                 }
             }
